@@ -136,7 +136,7 @@ def make_case(rng, variant, **over):
     alpha, _, _ = G.cone_alpha(W)
     K = int(over.get("K", rng.integers(1, 9)))
     scale = float(over.get("scale", 10 ** rng.uniform(-1, 1)))
-    eps = float(over.get("eps", scale * 10 ** rng.uniform(-1.5, -0.3)))
+    eps = float(over.get("eps", scale * 10 ** (rng.uniform(-1.5, -0.3) if rng.random() < 0.95 else rng.uniform(0.3, 1.0))))  # rarely: eps above the data spread
     fam = str(over.get("ds_family", rng.choice(["random", "chain", "chain", "dup", "tight", "lattice"])))
     mu = over.get("mu")
     if mu is None:
@@ -151,7 +151,7 @@ def make_case(rng, variant, **over):
         "batch": int(over.get("batch", 1 if not info.get("batch") else rng.choice([1, 1, 2, 3]))),
         "ds_family": fam, "scale": scale,
         "model": over.get("model", "stub"),
-        "stub_mode": str(over.get("stub_mode", rng.choice(["random", "random", "adversarial", "identical", "lattice", "stubborn", "needle"]))),
+        "stub_mode": str(over.get("stub_mode", rng.choice(["random", "random", "adversarial", "identical", "lattice", "stubborn", "needle", "flat"]))),
         "obs_mode": str(over.get("obs_mode", rng.choice(["controlled", "controlled", "adversarial", "real"]))),
         "costs": over.get("costs"), "budget": over.get("budget"),
         "rho_s": float(over.get("rho_s", rng.choice([0.3, 0.5, 0.7]))), "rho_g": float(over.get("rho_g", rng.choice([0.8, 0.9, 0.97]))),
